@@ -46,6 +46,15 @@ pub fn cell_strategy() -> BoxedStrategy<CellM> {
         .boxed()
 }
 
+/// a whole row or column of the layer filled with one glyph whose font page alternates 0/1 from cell to cell: operations
+/// that only permute cells (flip, scroll) then change nothing but font pages, which the crate's own == does not see
+#[derive(Clone, Debug, Hash, PartialEq, Eq, Serialize, Deserialize)]
+pub struct StripeM {
+    pub row: bool,
+    pub at: u8,
+    pub c: CellM,
+}
+
 #[derive(Clone, Debug, Hash, PartialEq, Eq, Serialize, Deserialize)]
 pub struct LayerM {
     /// size = buffer size (the usual case) instead of (w,h)
@@ -68,6 +77,11 @@ pub struct LayerM {
     /// 0 = every row allocated to full width (Layer::new), 1 = rows/columns only as far as content reaches (as loaders leave them)
     pub storage: u8,
     pub cells: Vec<(u8, u8, CellM)>,
+    /// transient state of a front end: the layer is being dragged and shown at this offset (Layer::set_preview_offset)
+    #[serde(default)]
+    pub preview: Option<(i8, i8)>,
+    #[serde(default)]
+    pub stripes: Vec<StripeM>,
 }
 
 pub fn mode_of(m: u8) -> Mode {
@@ -105,6 +119,15 @@ impl LayerM {
             let (x, y) = (*x as i32 % w.max(1), *y as i32 % h.max(1));
             l.set_char((x, y), c.to_char());
         }
+        for st in &self.stripes {
+            let (n, at) = if st.row { (w, st.at as i32 % h.max(1)) } else { (h, st.at as i32 % w.max(1)) };
+            for k in 0..n {
+                let mut c = st.c.clone();
+                c.font = (k % 2) as u8;
+                c.attr &= 0x7fff; // visible
+                l.set_char(if st.row { (k, at) } else { (at, k) }, c.to_char());
+            }
+        }
         if self.storage == 1 {
             // trim storage to the content, like a loader that only allocates what it read
             for line in &mut l.lines {
@@ -117,6 +140,9 @@ impl LayerM {
             }
         }
         l.set_offset((self.ox as i32, self.oy as i32));
+        if let Some((px, py)) = self.preview {
+            l.set_preview_offset(Some(Position::new(px as i32, py as i32)));
+        }
         l.role = role_of(self.role);
         l.transparency = self.transparency;
         l.properties.mode = mode_of(self.mode);
@@ -143,10 +169,17 @@ pub fn layer_strategy() -> BoxedStrategy<LayerM> {
         prop_oneof![4 => Just(0u8), 1 => any::<u8>()],
         prop_oneof![6 => Just(0u8), 1 => Just(1u8)],
         prop_oneof![3 => Just(0u8), 1 => Just(1u8)],
+        prop_oneof![7 => Just(None), 1 => (-3i8..=8, -2i8..=6).prop_map(Some)],
     );
-    let cells = prop::collection::vec((0u8..30, 0u8..20, cell_strategy()), 0..=14);
+    let stripe = (prop::bool::weighted(0.7), 0u8..20, cell_strategy()).prop_map(|(row, at, c)| StripeM { row, at, c });
+    // a striped layer is otherwise empty half of the time, so that whole-layer operations permute nothing but the stripe
+    let cells = prop_oneof![
+        17 => (prop::collection::vec((0u8..30, 0u8..20, cell_strategy()), 0..=14), Just(Vec::new())),
+        2 => (prop::collection::vec((0u8..30, 0u8..20, cell_strategy()), 0..=6), prop::collection::vec(stripe.clone(), 1..=1)),
+        2 => (Just(Vec::new()), prop::collection::vec(stripe, 1..=2)),
+    ];
     (geom, flags, misc, cells)
-        .prop_map(|((full, w, h, ox, oy), (alpha, visible, locked, pos_locked, alpha_locked, mode, role), (transparency, default_font_page, storage), cells)| LayerM {
+        .prop_map(|((full, w, h, ox, oy), (alpha, visible, locked, pos_locked, alpha_locked, mode, role), (transparency, default_font_page, storage, preview), (cells, stripes))| LayerM {
             full,
             w,
             h,
@@ -163,6 +196,8 @@ pub fn layer_strategy() -> BoxedStrategy<LayerM> {
             default_font_page,
             storage,
             cells,
+            preview,
+            stripes,
         })
         .boxed()
 }
@@ -177,6 +212,8 @@ pub struct SelM {
     pub rect: bool,
     /// 0 Default, 1 Add, 2 Subtract
     pub add: u8,
+    #[serde(default)]
+    pub locked: bool,
 }
 
 impl SelM {
@@ -184,7 +221,7 @@ impl SelM {
         Selection {
             anchor: Position::new(self.ax as i32, self.ay as i32),
             lead: Position::new(self.lx as i32, self.ly as i32),
-            locked: false,
+            locked: self.locked,
             shape: if self.rect { Shape::Rectangle } else { Shape::Lines },
             add_type: match self.add {
                 1 => AddType::Add,
@@ -198,9 +235,16 @@ impl SelM {
 pub fn sel_strategy() -> BoxedStrategy<SelM> {
     let c = || prop_oneof![6 => 0i8..=12, 2 => -3i8..=34];
     let r = || prop_oneof![6 => 0i8..=8, 2 => -3i8..=24];
-    (c(), r(), c(), r(), prop::bool::weighted(0.8), prop_oneof![6 => Just(0u8), 1 => Just(1u8), 1 => Just(2u8)])
-        .prop_map(|(ax, ay, lx, ly, rect, add)| SelM { ax, ay, lx, ly, rect, add })
-        .boxed()
+    let finished = (c(), r(), c(), r(), prop::bool::weighted(0.8), prop_oneof![6 => Just(0u8), 1 => Just(1u8), 1 => Just(2u8)])
+        .prop_map(|(ax, ay, lx, ly, rect, add)| SelM { ax, ay, lx, ly, rect, add, locked: false })
+        .boxed();
+    // a selection in progress (anchor set, nothing spanned yet) and a locked one are states a front end leaves behind too
+    prop_oneof![
+        8 => finished,
+        1 => (c(), r()).prop_map(|(ax, ay)| SelM { ax, ay, lx: ax, ly: ay, rect: false, add: 0, locked: false }),
+        1 => (c(), r(), c(), r()).prop_map(|(ax, ay, lx, ly)| SelM { ax, ay, lx, ly, rect: true, add: 0, locked: true }),
+    ]
+    .boxed()
 }
 
 #[derive(Clone, Debug, Hash, PartialEq, Eq, Serialize, Deserialize)]
@@ -265,6 +309,16 @@ pub fn sauce_strategy() -> BoxedStrategy<SauceM> {
         .boxed()
 }
 
+/// state a front end sets between operations and that no undo step covers
+#[derive(Clone, Debug, Default, Hash, PartialEq, Eq, Serialize, Deserialize)]
+pub struct TransientM {
+    /// overlay layer (tool preview) on the current layer with one character at (x, y)
+    pub overlay: Option<(u8, u8, CellM)>,
+    /// caret colours (fg, bg)
+    pub caret_attr: Option<(u8, u8)>,
+    pub insert_mode: bool,
+}
+
 #[derive(Clone, Debug, Hash, PartialEq, Eq, Serialize, Deserialize)]
 pub struct DocM {
     pub w: u8,
@@ -289,6 +343,8 @@ pub struct DocM {
     pub caret_font: u8,
     pub cur: u8,
     pub mirror: bool,
+    #[serde(default)]
+    pub transient: TransientM,
 }
 
 pub fn ice_of(m: u8) -> IceMode {
@@ -354,6 +410,15 @@ impl DocM {
         st.get_caret_mut().set_font_page(self.caret_font as usize);
         st.set_current_layer(self.cur as usize);
         st.set_mirror_mode(self.mirror);
+        if let Some((fg, bg)) = self.transient.caret_attr {
+            st.get_caret_mut().set_attr(TextAttribute::new(fg as u32, bg as u32));
+        }
+        st.get_caret_mut().insert_mode = self.transient.insert_mode;
+        if let Some((x, y, c)) = &self.transient.overlay {
+            if let Some(o) = st.get_overlay_layer() {
+                o.set_char((*x as i32, *y as i32), c.to_char());
+            }
+        }
         st
     }
 }
@@ -381,8 +446,10 @@ pub fn doc_strategy() -> BoxedStrategy<DocM> {
     let fonts = prop_oneof![1 => Just(vec![]), 2 => (0u8..42).prop_map(|s| vec![(1u8, s)]), 1 => (0u8..42, 0u8..42).prop_map(|(a, b)| vec![(1u8, a), (2u8, b)])];
     let sel = (prop::option::weighted(0.5, sel_strategy()), prop::collection::vec((0i8..20, 0i8..12, 1u8..6, 1u8..5), 0..=2));
     let caret = ((prop_oneof![6 => 0i8..=11, 1 => -2i8..=31], prop_oneof![6 => 0i8..=7, 1 => -2i8..=21]), prop_oneof![5 => Just(0u8), 1 => Just(1u8)], 0u8..=3, prop::bool::weighted(0.1));
-    (size, layers, modes, pal_strategy(), fonts, prop::option::weighted(0.3, sauce_strategy()), sel, caret)
-        .prop_map(|((w, h), layers, (ice, pal_mode, font_mode, buffer_type), palette, fonts, sauce, (sel, mask), (caret, caret_font, cur, mirror))| DocM {
+    let transient = (prop::option::weighted(0.15, (0u8..12, 0u8..8, cell_strategy())), prop::option::weighted(0.3, (0u8..16, 0u8..16)), prop::bool::weighted(0.2))
+        .prop_map(|(overlay, caret_attr, insert_mode)| TransientM { overlay, caret_attr, insert_mode });
+    (size, layers, modes, pal_strategy(), fonts, prop::option::weighted(0.3, sauce_strategy()), sel, caret, transient)
+        .prop_map(|((w, h), layers, (ice, pal_mode, font_mode, buffer_type), palette, fonts, sauce, (sel, mask), (caret, caret_font, cur, mirror), transient)| DocM {
             w,
             h,
             layers,
@@ -399,6 +466,7 @@ pub fn doc_strategy() -> BoxedStrategy<DocM> {
             caret_font,
             cur,
             mirror,
+            transient,
         })
         .boxed()
 }
@@ -429,6 +497,8 @@ pub fn fixed_doc(i: u8) -> DocM {
             (2, 2, CellM::plain(b' ', 7, 0)),
             (5, 3, CellM::plain(179, 2, 0)),
         ],
+        preview: None,
+        stripes: vec![],
     };
     let top = LayerM {
         full: false,
@@ -452,12 +522,13 @@ pub fn fixed_doc(i: u8) -> DocM {
             palette: PalM::Dos,
             fonts: vec![],
             sauce: None,
-            sel: Some(SelM { ax: 1, ay: 1, lx: 5, ly: 4, rect: true, add: 0 }),
+            sel: Some(SelM { ax: 1, ay: 1, lx: 5, ly: 4, rect: true, add: 0, locked: false }),
             mask: vec![],
             caret: (2, 2),
             caret_font: 0,
             cur: 1,
             mirror: false,
+            transient: TransientM::default(),
         }
     } else {
         let hidden = LayerM { visible: false, ox: -2, oy: -1, storage: 1, cells: vec![(1, 1, CellM::plain(b'h', 7, 0))], ..top.clone() };
@@ -479,6 +550,7 @@ pub fn fixed_doc(i: u8) -> DocM {
             caret_font: 0,
             cur: 0,
             mirror: false,
+            transient: TransientM::default(),
         }
     }
 }
